@@ -473,6 +473,9 @@ func runC11(t *rapid.T, w *rep.Worker, maxClients int) {
 	w.State(fmt.Sprintf("kinds=%d|clients=%d|switches>0=%v", nk, nc, sched.Switches > 0))
 	if sched.Switches > 0 && judged > 1 {
 		w.Note("%d clients, %d decisions, %d switches, schedule hash %x", nc, sched.Decisions, sched.Switches, sched.Hash())
+		if w.WantDetail() {
+			w.Note("schedule trace: %s", sched.TraceString())
+		}
 		w.EndNontrivial()
 	}
 	if sig := w.Pending(); sig != "" {
